@@ -65,7 +65,8 @@ def make_pool(seed, n, scratch):
         with open(os.path.join(root, lay.main_key), encoding="utf-8") as f:
             text = f.read()
         lookup = [os.path.join(root, k) for k in lay.lookup_keys]
-        jobs.append({"k": "compile", "text": text, "path": os.path.join(root, lay.main_key), "lookup": lookup, "cls": "layout"})
+        jobs.append({"k": "compile", "text": text, "path": os.path.join(root, lay.main_key), "lookup": lookup, "cls": "layout",
+                     "libs": [os.path.join(root, k) for k in lay.files if k != lay.main_key]})
         # one of the imported files compiled on its own (histories like to do that first, on the same compiler object)
         libs = [k for k in lay.files if k != lay.main_key]
         if libs:
